@@ -105,7 +105,40 @@ fn record(seed: u64, count: usize, path: &str) {
         out.put(&json!({"ev": "FromJson", "json": jv::to_jv(&v), "res": res}));
         out.put(&json!({"ev": "Doc", "d": jv::to_jv(&v)}));
     }
+    // SIZE boundaries of every list of the data model: an enum that uses all 256 indices, dozens of members,
+    // parameters, doc lines, path segments and entries (nothing in the format limits a list)
+    for reg in big_registries() {
+        let rv = proj::registry(Mode::Wide, &reg);
+        let v = serde_json::to_value(&reg).unwrap();
+        out.put(&json!({"ev": "ToJson", "reg": rv, "json": jv::to_jv(&v)}));
+        let text = serde_json::to_string(&reg).unwrap();
+        let res = match serde_json::from_str::<PortableRegistry>(&text) {
+            Ok(r) => json!({"ok": [proj::registry(Mode::Wide, &r)]}),
+            Err(e) => json!({"err": e.to_string()}),
+        };
+        out.put(&json!({"ev": "FromJson", "json": jv::to_jv(&v), "res": res}));
+        out.put(&json!({"ev": "Doc", "d": jv::to_jv(&v)}));
+    }
     out.flush();
+}
+fn big_registries() -> Vec<PortableRegistry> {
+    use scale_info::{form::PortableForm, Field, Path, PortableType, Type, TypeDefComposite, TypeDefPrimitive, TypeDefTuple, TypeDefVariant, TypeParameter, Variant};
+    let s = |x: &str| x.to_string();
+    let prim = || PortableType::new(0, Type::new(Path::from_segments_unchecked(Vec::<String>::new()), vec![], TypeDefPrimitive::U8, vec![]));
+    let f = |n: usize| Field::<PortableForm>::new(Some(format!("f{n}")), 0.into(), None, vec![]);
+    let path = |n: &str| Path::from_segments_unchecked(vec![s("big"), s(n)]);
+    let mut out = vec![];
+    // every variant index 0..=255 in use, one variant with a payload
+    let vs: Vec<Variant<PortableForm>> = (0..=255u32).map(|i| Variant::new(format!("V{i}"), if i == 200 { vec![f(0)] } else { vec![] }, i as u8, vec![])).collect();
+    out.push(PortableRegistry { types: vec![prim(), PortableType::new(1, Type::new(path("Every"), vec![], TypeDefVariant::new(vs), vec![]))] });
+    // 40 members / tuple elements / parameters / doc lines, 70 path segments
+    out.push(PortableRegistry { types: vec![prim(), PortableType::new(1, Type::new(path("Wide"), (0..40).map(|i| TypeParameter::new_portable(format!("P{i}"), if i % 2 == 0 { Some(0.into()) } else { None })).collect::<Vec<_>>(),
+        TypeDefComposite::new((0..40).map(f)), (0..40).map(|i| format!("line {i}")).collect()))] });
+    out.push(PortableRegistry { types: vec![prim(), PortableType::new(1, Type::new(Path::from_segments_unchecked((0..70).map(|i| format!("m{i}")).collect::<Vec<_>>()), vec![],
+        TypeDefTuple::new_portable((0..40).map(|_| 0.into())), vec![]))] });
+    // 40 entries
+    out.push(PortableRegistry { types: (0..40u32).map(|i| PortableType::new(i, Type::new(Path::from_segments_unchecked(Vec::<String>::new()), vec![], TypeDefTuple::new_portable((0..(i % 3)).map(|k| k.into())), vec![]))).collect() });
+    out
 }
 
 fn paths(v: &Value, cur: &mut Vec<String>, out: &mut Vec<Vec<String>>) {
